@@ -860,7 +860,7 @@ package flags
 //@ pure func unmet(p *parseState, a *Arg) bool = argDemanded(p, a) && (!isRem(a) || a.value.Len() < a.Required || (a.RequiredMaximum != -1 && a.value.Len() > a.RequiredMaximum))
 
 //@ func (p *parseState) checkRequired(parser *Parser) (err error)
-//@   props C06 C04
+//@   props C06 C04 C15
 //@   traced
 //@   requires p != nil && parser != nil && p.command != nil
 //@   let root := parser.Command
@@ -876,6 +876,7 @@ package flags
 //@   loop 3 invariant len(required) == 0 ==> forall(k, 0, cnt_1, noneMissingIn(activeAt(root, k), iterlen(Group.eachGroup, activeAt(root, k).Group))) && noneMissingIn(c, idx_2) && forall(i, 0, idx_3, !missingReq(g.options[i]))
 //@   loop 4 invariant (len(reqnames) > 0) == exists(i, 0, idx_4, unmet(p, p.positional[i]))
 //@   loop 5 invariant len(names) == idx_5
+//@   at[C15] call strings.Join #2: forall(a, 0, len(names), forall(b, a, len(names), names[a] <= names[b]))
 //@   ensures[C06] err != nil ==> isTyped(err, ErrRequired) && p.err == err
 //@   ensures[C06] err == nil ==> p.err == old(p.err)
 //@   ensures[C06] err == nil ==> forall(k, 0, chainLen(root), noneMissingIn(activeAt(root, k), iterlen(Group.eachGroup, activeAt(root, k).Group)))
@@ -976,6 +977,8 @@ package flags
 //@   pure
 //@   ensures len(r) >= 1 && (n > 0 ==> len(r) <= n)
 //@   ensures n == 2 ==> (len(r) == 2) == contains(s, sep)
+//@   ensures n == 2 && len(r) == 2 ==> s == r[0] + sep + r[1]
+//@   ensures len(r) == 1 ==> r[0] == s
 
 //@ func readFullLine(reader *bufio.Reader) (s string, err error)
 //@   props C14 C04
@@ -988,7 +991,7 @@ package flags
 //@   ensures !is(err, *Error) && !is(err, *IniError)
 
 //@ func readIni(contents io.Reader, filename string) (r *ini, err error)
-//@   props C14 C04
+//@   props C14 C04 C12
 //@   let l0 := ncalls(readFullLine) - nfails(readFullLine)
 //@   loop 1 invariant ret != nil && reader != nil && !isnil(ret.Sections) && ret.File == filename
 //@   loop 1 invariant lineno == (ncalls(readFullLine) - nfails(readFullLine)) - l0
@@ -996,6 +999,7 @@ package flags
 //@   loop 1 invariant forall(n, string, indom(ret.Sections, n) ==> exists(k, 0, len(ret.order), ret.order[k] == n))
 //@   loop 1 invariant ncalls(bufio.Reader.ReadLine) <= readBound(reader)
 //@   loop 1 decreases readBound(reader) - ncalls(bufio.Reader.ReadLine)
+//@   at[C12] call append #3: value == iniDecode(keyval[1]) && iniDecodeOK(keyval[1]) && name == strings.TrimSpace(keyval[0])
 //@   ensures[C14] err == nil ==> r != nil && !isnil(r.Sections) && r.File == filename
 //@   ensures[C14] is(err, *IniError) ==> as(err, *IniError) != nil && as(err, *IniError).LineNumber == uint((ncalls(readFullLine) - nfails(readFullLine)) - l0) && as(err, *IniError).LineNumber >= 1 && as(err, *IniError).File == filename
 //@   ensures[C14] err != nil ==> r == nil
@@ -1051,7 +1055,7 @@ package flags
 //@ pure func allClearRef(p *Parser) bool = forall(k, 0, iterlen(Command.eachOption, p.Command), iterelem(Command.eachOption, p.Command, k, 2).clearReferenceBeforeSet)
 
 //@ func (i *IniParser) parse(ini *ini) (err error)
-//@   props C05 C13 C14 C04
+//@   props C05 C13 C14 C04 C12 C15
 //@   requires i != nil && i.parser != nil && ini != nil
 //@   loop 1 invariant forall(k, 0, idx_1, iterelem(Command.eachOption, i.parser.Command, k, 2).clearReferenceBeforeSet)
 //@   loop 2 invariant !isnil(quotesLookup) && !isnil(iniDefaulted) && p == i.parser
@@ -1061,6 +1065,9 @@ package flags
 //@   loop 5 invariant true
 //@   at call Option.Set #1: opt != nil && (pval == nil) == (!opt.canArgument() && len(inival.Value) == 0) && (pval != nil && opt.value.Type().Kind() != reflect.Map ==> *pval == inival.Value)
 //@   at call Option.setDefault #1: opt != nil && (pval == nil) == (!opt.canArgument() && len(inival.Value) == 0) && (pval != nil && opt.value.Type().Kind() != reflect.Map ==> *pval == inival.Value)
+//@   at[C15] call IniParser.matchingGroups #1: idx_2 < len(ini.order) && name == ini.order[idx_2]
+//@   at[C12] call Option.Set #1: pval != nil && opt.value.Type().Kind() == reflect.Map && len(strings.SplitN(inival.Value, ":", 2)) == 2 ==> *pval == strings.SplitN(inival.Value, ":", 2)[0] + ":" + iniMapDecode(strings.SplitN(inival.Value, ":", 2)[1])
+//@   at[C12] call Option.setDefault #1: pval != nil && opt.value.Type().Kind() == reflect.Map && len(strings.SplitN(inival.Value, ":", 2)) == 2 ==> *pval == strings.SplitN(inival.Value, ":", 2)[0] + ":" + iniMapDecode(strings.SplitN(inival.Value, ":", 2)[1])
 //@   ensures[C14] err != nil ==> isTyped(err, ErrUnknownGroup) || (is(err, *IniError) && as(err, *IniError) != nil && as(err, *IniError).File == ini.File)
 //@   ensures[C14] isTyped(err, ErrUnknownGroup) ==> p.Options&IgnoreUnknown == 0
 
@@ -1433,6 +1440,7 @@ package flags
 //@   pure
 //@ assumed func reflect.Value.Interface(v reflect.Value) (i interface{})
 //@   pure
+//@   ensures v.Type() == durationT() ==> is(i, fmt.Stringer)
 //@ assumed func reflect.Value.CanAddr(v reflect.Value) (r bool)
 //@   pure
 //@ assumed func reflect.Value.Addr(v reflect.Value) (r reflect.Value)
@@ -1465,3 +1473,116 @@ package flags
 //@   ensures[C18] ncalls(completion.completeOptionNames) == co0 + 1 ==> len(r) == len(callres(completion.completeOptionNames, co0, 0)) && forall(i, 0, len(r), exists(j, 0, len(r), r[i] == callres(completion.completeOptionNames, co0, 0)[j]))
 //@   ensures[C18] ncalls(completion.completeValue) == cv0 + 1 ==> len(r) == len(callres(completion.completeValue, cv0, 0)) && forall(i, 0, len(r), exists(j, 0, len(r), r[i] == callres(completion.completeValue, cv0, 0)[j]))
 //@   ensures[C18] ncalls(completion.completeValue) == cv0 && ncalls(completion.completeOptionNames) == co0 && ncalls(completion.completeCommands) == cc0 ==> len(r) == 0
+
+// ===================================================================
+// C12: INI write / read round trip (value level)
+// ===================================================================
+
+// Library facts (trusted): strconv.Quote produces a double-quoted literal
+// without surrounding white space that strconv.Unquote maps back.
+//@ axiom manual quote_unquote: forall s string :: fst(strconv.Unquote(strconv.Quote(s))) == s && snd(strconv.Unquote(strconv.Quote(s))) == nil
+//@ axiom manual quote_shape: forall s string :: len(strconv.Quote(s)) >= 2 && strconv.Quote(s)[0] == '"' && strings.TrimSpace(strconv.Quote(s)) == strconv.Quote(s)
+
+// What the reader (readIni) makes of the text after '=': trimmed, and decoded
+// as a Go string literal when it starts with a double quote.
+//@ pure func iniDecode(t string) string = ite(len(strings.TrimSpace(t)) != 0 && strings.TrimSpace(t)[0] == '"', fst(strconv.Unquote(strings.TrimSpace(t))), strings.TrimSpace(t))
+//@ pure func iniDecodeOK(t string) bool = !(len(strings.TrimSpace(t)) != 0 && strings.TrimSpace(t)[0] == '"') || snd(strconv.Unquote(strings.TrimSpace(t))) == nil
+// ... and of the value part of a map entry key:value (IniParser.parse)
+//@ pure func iniMapDecode(t string) string = ite(len(t) > 0 && t[0] == '"', fst(strconv.Unquote(t)), t)
+
+//@ assumed func strconv.IsPrint(r rune) (b bool)
+//@   pure
+//@ func isPrint(s string) (r bool)
+//@   props C12 C04
+//@   pure
+//@   assigns nothing
+
+// Whatever writeOption writes for a string value (or a value of an option
+// whose values were quoted when read) reads back as exactly that value.
+//@ func writeOption(writer io.Writer, optionName string, optionType reflect.Kind, optionKey string, optionValue string, commentOption bool, forceQuote bool)
+//@   props C12 C04
+//@   traced
+//@   let v0 := optionValue
+//@   requires use(quote_unquote, optionValue) && use(quote_shape, optionValue)
+//@   at[C12] call fmt.Fprintf #3: optionType == reflect.String || forceQuote ==> iniDecodeOK(optionValue) && iniDecode(optionValue) == v0
+//@   at[C12] call fmt.Fprintf #2: optionType == reflect.String || forceQuote ==> strings.TrimSpace(optionValue) == optionValue && iniMapDecode(optionValue) == v0
+//@   at[C12] call fmt.Fprintln #1: optionKey == "" && optionValue == "" ==> v0 == ""
+
+// Rendering of values (the inverse direction of convert): per kind the
+// strconv formatter that the matching strconv parser of convert inverts, with
+// the same base from the same tag; a map is rendered in the order of its
+// rendered keys, whatever order reflect hands the keys over in.
+//@ assumed func convertMarshal(val reflect.Value) (ok bool, r string, err error)
+//@   pure
+//@ assumed func reflect.Value.IsValid(v reflect.Value) (r bool)
+//@   pure
+//@ assumed func reflect.Value.String(v reflect.Value) (r string)
+//@   pure
+//@ assumed func reflect.Value.Bool(v reflect.Value) (r bool)
+//@   pure
+//@ assumed func reflect.Value.Int(v reflect.Value) (r int64)
+//@   pure
+//@ assumed func reflect.Value.Uint(v reflect.Value) (r uint64)
+//@   pure
+//@ assumed func reflect.Value.Float(v reflect.Value) (r float64)
+//@   pure
+//@ assumed func reflect.Value.Index(v reflect.Value, i int) (r reflect.Value)
+//@   pure
+//@ assumed func reflect.Value.MapKeys(v reflect.Value) (r []reflect.Value)
+//@   ensures len(r) == v.Len()
+//@ assumed func reflect.Value.MapIndex(v reflect.Value, key reflect.Value) (r reflect.Value)
+//@   pure
+//@ assumed func fmt.Stringer.String(s fmt.Stringer) (r string)
+//@   pure
+
+//@ func convertToString(val reflect.Value, options multiTag) (r string, err error)
+//@   props C12 C15 C11 C04
+//@   traced
+//@   let mo := fst(convertMarshal(val))
+//@   let k := val.Type().Kind()
+//@   let plain := !mo && val.IsValid() && val.Type() != durationT()
+//@   loop 1 invariant 0 <= i
+//@   loop 1 decreases val.Len() - i
+//@   loop 2 invariant !isnil(items) && len(keyitems) == len(mkeys)
+//@   loop 3 invariant[C15] forall(a, 0, len(keyitems), forall(b, a, len(keyitems), keyitems[a] <= keyitems[b]))
+//@   ensures[C12] plain && k == reflect.String ==> r == val.String() && err == nil
+//@   ensures[C12] plain && k == reflect.Bool ==> r == ite(val.Bool(), "true", "false") && err == nil
+//@   ensures[C12,C11] plain && isIntKind(k) && snd(getBase(options, 10)) == nil ==> r == strconv.FormatInt(val.Int(), fst(getBase(options, 10))) && err == nil
+//@   ensures[C12,C11] plain && isUintKind(k) && snd(getBase(options, 10)) == nil ==> r == strconv.FormatUint(val.Uint(), fst(getBase(options, 10))) && err == nil
+//@   ensures[C12,C11] plain && (k == reflect.Float32 || k == reflect.Float64) ==> r == strconv.FormatFloat(val.Float(), 'g', -1, val.Type().Bits()) && err == nil
+//@   ensures[C12,C11] plain && (isIntKind(k) || isUintKind(k)) && snd(getBase(options, 10)) != nil ==> r == "" && err == snd(getBase(options, 10))
+//@   ensures[C12] plain && k == reflect.Slice && val.Len() == 0 ==> r == "" && err == nil
+
+//@ assumed func optionIniName(option *Option) (r string)
+//@   pure
+//@ assumed func (option *Option) valueIsDefault() (r bool)
+//@   pure
+
+// One section per group: hidden options, func options and options marked
+// no-ini are never written; map entries are written in the order of their
+// rendered keys (C15); string kinds are passed on so that writeOption can
+// quote (C12).
+//@ func writeGroupIni(cmd *Command, group *Group, namespace string, writer io.Writer, options IniOptions)
+//@   props C12 C15 C04
+//@   requires cmd != nil && group != nil
+//@   loop 2 invariant 0 <= idx
+//@   loop 2 decreases val.Len() - idx
+//@   loop 3 invariant !isnil(kkmap) && len(keys) == len(mkeys)
+//@   loop 4 invariant[C15] forall(a, 0, len(keys), forall(b, a, len(keys), keys[a] <= keys[b]))
+//@   at[C12] call writeOption #1: !option.Hidden && !option.isFunc() && len(option.tag.Get("no-ini")) == 0 && kind == option.value.Type().Elem().Kind()
+//@   at[C12] call writeOption #2: !option.Hidden && !option.isFunc() && len(option.tag.Get("no-ini")) == 0 && kind == option.value.Type().Elem().Kind()
+//@   at[C12] call writeOption #3: !option.Hidden && !option.isFunc() && len(option.tag.Get("no-ini")) == 0 && kind == option.value.Type().Elem().Kind()
+//@   at[C12] call writeOption #4: !option.Hidden && !option.isFunc() && len(option.tag.Get("no-ini")) == 0 && kind == option.value.Type().Elem().Kind()
+//@   at[C12] call writeOption #5: !option.Hidden && !option.isFunc() && len(option.tag.Get("no-ini")) == 0 && kind == option.value.Type().Kind()
+
+// Library facts (trusted): the strconv parsers invert the strconv formatters
+// for the same base, for values that fit the width.
+//@ assumed func strconv.FormatInt(i int64, base int) (r string)
+//@   pure
+//@ assumed func strconv.FormatUint(i uint64, base int) (r string)
+//@   pure
+//@ axiom manual parse_format_int: forall x int64, b int, bits int :: 2 <= b && b <= 36 ==> snd(strconv.ParseInt(strconv.FormatInt(x, b), b, bits)) == nil ==> fst(strconv.ParseInt(strconv.FormatInt(x, b), b, bits)) == x
+//@ axiom manual parse_format_uint: forall x uint64, b int, bits int :: 2 <= b && b <= 36 ==> snd(strconv.ParseUint(strconv.FormatUint(x, b), b, bits)) == nil ==> fst(strconv.ParseUint(strconv.FormatUint(x, b), b, bits)) == x
+// (The round trip of a numeric option is the composition of two contracts and
+// this fact: convertToString renders FormatInt(v, base(tag)), convert stores
+// ParseInt(text, base(tag), width); both read the base from the same tag.)
